@@ -67,6 +67,12 @@ def run(ctx):
     for hops in ([1] if q else [0, 1, 2, 3]):
         r = ctx.tlc("Faults", "MC_Faults.cfg", consts={"Hops": hops, "BodyUnits": 8 if q else 20}).require_clean()
         res.add_tlc(r)
+    # design-level: one time budget for a whole chain, with no deadline once it is used up, leaves a stalling peer unwatched
+    sh = ctx.tlc("Faults", "MC_Faults_shared.cfg")
+    res.add_tlc(sh)
+    if not sh.violated:
+        raise vlib.Inconclusive("the shared-budget variant of Faults.tla was expected to be refuted (NeverUnwatched)")
+    res.extra["shared_budget_variant"] = "refuted (NeverUnwatched): slow hops within their limits, then a silent peer nobody watches"
     evs, _, _ = run_harness(ctx, "jtp", "TestVerifFaults", {"stride": 7 if q else 1, "hops": 1 if q else 2}, timeout=2400)
     shared, _, _ = run_harness(ctx, "client", "TestVerifFaultsShared", {}, timeout=900)
     evs += [e for e in shared if e["ev"] == "fault"]
